@@ -134,6 +134,18 @@ pub fn enumerate(b: &Bounds) -> Vec<(u64, Cfg)> {
                 }
             }
         }
+        // two entries of ONE target in ancestor relation (one equal to a prefix of the other), both orders:
+        // a redundant, overlapping `uses` list
+        for ti in 0..nt {
+            for e1 in &entries {
+                for e2 in &entries {
+                    if e1 != e2 && inside(e2, e1) {
+                        use_sets.push(vec![(ti, *e1), (ti, *e2)]);
+                        use_sets.push(vec![(ti, *e2), (ti, *e1)]);
+                    }
+                }
+            }
+        }
         // the same entry listed by two or by all targets (shared boilerplate `uses` lists)
         if nt >= 2 {
             for e in &entries {
@@ -198,7 +210,7 @@ pub fn run(tier: &str, root: &Path) -> Value {
         rep.sample(json!({"config": cfg.to_value(), "oracle_edges": cfg.adj()}));
     }
     rep.finish(
-        "every target set T of D10 (|T|<=max_t) x every placement of <=max_uses `uses` entries from P10 on any target, plus every single entry shared by two or by all targets, x every declaration order for |T|<=perm_t; case = one configuration, all distinct; non-trivial = oracle relation has at least one dependency",
+        "every target set T of D10 (|T|<=max_t) x every placement of <=max_uses `uses` entries from P10 on any target, plus every pair of nested entries on one target (both orders), plus every single entry shared by two or by all targets, x every declaration order for |T|<=perm_t; case = one configuration, all distinct; non-trivial = oracle relation has at least one dependency",
         true,
         json!({"max_targets": b.max_t, "max_uses_entries": b.max_uses, "all_orders_up_to_targets": b.perm_t,
                "dir_universe": DIRS, "extra_entries": EXTRA}),
